@@ -63,7 +63,7 @@ func throughStack(run *rep.Run, rng *rand.Rand) {
 	for i, c := range cfgs {
 		b := backend.NewStd(c.name, nil, nil)
 		backs = append(backs, b)
-		wends = append(wends, world.Endpoint{Name: c.name, URL: b.URL(), Type: []string{"ollama", "ollama", "vllm"}[i], Priority: 100, FilterInclude: c.inc, FilterExclude: c.exc, CheckInterval: 2 * time.Second, CheckTimeout: 500 * time.Millisecond})
+		wends = append(wends, world.Endpoint{Name: c.name, URL: b.URL(), Type: []string{"ollama", "ollama", "vllm"}[i], Priority: 100, FilterInclude: c.inc, FilterExclude: c.exc, CheckInterval: 2 * time.Second, CheckTimeout: 1500 * time.Millisecond})
 	}
 	defer func() {
 		for _, b := range backs {
